@@ -21,6 +21,13 @@ impl NodeValue for CustomInline {
         fmt.open("ci", &node.attrs); fmt.text(&self.0.to_string()); fmt.close("ci");
     }
 }
+// container built by generics::inline::code_pair with TOKENIZE = true (marker '%')
+#[derive(Debug)] pub struct CustomPair(pub u32);
+impl NodeValue for CustomPair {
+    fn render(&self, node: &Node, fmt: &mut dyn Renderer) {
+        fmt.open("cp", &node.attrs); fmt.contents(&node.children); fmt.close("cp");
+    }
+}
 #[derive(Debug)] pub struct CustomCore(pub u32);
 impl NodeValue for CustomCore {
     fn render(&self, node: &Node, fmt: &mut dyn Renderer) {
@@ -32,6 +39,7 @@ pub fn kind_of_custom(node: &Node) -> Option<String> {
     if node.is::<CustomBlock>() { return Some("CustomBlock()".into()); }
     if let Some(x) = node.cast::<CustomInline>() { return Some(format!("CustomInline({})", x.0)); }
     if let Some(x) = node.cast::<CustomCore>() { return Some(format!("CustomCore({})", x.0)); }
+    if let Some(x) = node.cast::<CustomPair>() { return Some(format!("CustomPair({})", x.0)); }
     None
 }
 
@@ -121,6 +129,8 @@ pub fn add_custom(md: &mut MarkdownIt, c: char) {
         // same custom block rules, but placed first in the chain
         '6' => { md.block.add_rule::<CustomBlockA>().before_all(); }
         '7' => { md.block.add_rule::<CustomBlockB>().before_all(); }
+        // generic pair with nested inline parsing: %foo%, %%foo%% ...
+        '8' => { markdown_it::generics::inline::code_pair::add_with::<'%', true>(md, |len| Node::new(CustomPair(len as u32))); }
         _ => panic!("harness: unknown plugin code {}", c),
     }
 }
@@ -158,6 +168,7 @@ fn remove_rule(md: &mut MarkdownIt, c: char) {
         '3' => md.inline.remove_rule::<CustomInlineLetter>(),
         '4' => md.inline.remove_rule::<CustomInlinePunct>(),
         '5' => md.remove_rule::<CustomCoreRule>(),
+        '8' => md.inline.remove_rule::<CodePairScanner<'%', true>>(),
         _ => panic!("harness: unknown remove code {}", c),
     }
 }
@@ -195,6 +206,7 @@ fn has_rule(md: &mut MarkdownIt, c: char) -> bool {
         '3' => md.inline.has_rule::<CustomInlineLetter>(),
         '4' => md.inline.has_rule::<CustomInlinePunct>(),
         '5' => md.has_rule::<CustomCoreRule>(),
+        '8' => md.inline.has_rule::<CodePairScanner<'%', true>>(),
         _ => panic!("harness: unknown has code {}", c),
     }
 }
